@@ -1,39 +1,44 @@
 """C19 — child output streamed fully without deadlock; writers chunking-independent.
 
-Decided structurally:
-  R1 spawn-before-join  inside the scoped-thread closure every call that can reach ScopedJoinHandle::join is
-                        dominated by both calls that can reach Scope::spawn (otherwise the undrained pipe can
-                        fill up and the child blocks forever)
-  R2 wait-after-drain   Child::wait is only called on the result of the stream-copy function
-  R3 copy completeness  each copier thread is io::copy(child stream, writer) to EOF; both results are joined and
-                        combined (first error wins); panics of copier threads are re-raised; both pipes are piped
-  R4 tee                TeeWrite::write calls write_all(buf) on both inner writers with the whole input slice,
-                        propagates their errors and returns Ok(buf.len()); flush flushes both
-  R5 mapped writer      write pushes every input byte and flushes exactly when the byte equals the marker; returns
-                        Ok(buf.len()); the buffer is a field (state survives across write calls); Drop and unwrap
-                        flush the remainder, unwrap takes the inner writer afterwards (no double flush), and the
-                        remainder flush is guarded by a non-empty buffer
+Decided structurally, on interprocedural effects (arguments substituted into the entry function's terms), value normal
+forms and success dependencies — not on one spelling of the code:
+  R1 spawn-before-join  inside the scoped-thread closure every call through which a ScopedJoinHandle::join effect is
+                        reached is dominated by every call through which a Scope::spawn effect is reached (otherwise the
+                        undrained pipe can fill up and the child blocks forever)
+  R2 wait-after-drain   Child::wait is only called on the success payload of the stream-copy function
+  R3 copy completeness  each spawned thread's result is io::copy(child stream, that stream's writer) to EOF; success of
+                        the scope closure depends on the joined result of both copiers (an error of either is returned);
+                        the panic payload of every joined thread (and of the scope) is re-raised; both pipes are piped;
+                        the returned Output carries the tee'd buffers
+  R4 tee                success of TeeWrite::write depends on write_all(buf) on both inner writers with the whole input
+                        slice and yields Ok(buf.len()); flush flushes both
+  R5 mapped writer      write appends every part of an in-order partition of the input (its bytes / its marker-terminated
+                        segments) to the buffer field and flushes exactly when the part ends with the marker; returns
+                        Ok(buf.len()); the buffer is a field (state survives across write calls); everything written to
+                        the inner writer is mapping_fn(take(buffer)); Drop and unwrap flush the remainder, unwrap takes
+                        the inner writer afterwards (no double flush), and the remainder flush is guarded by a non-empty
+                        buffer
 Not decided: scheduling and timing, kernel pipe behaviour, that io::copy delivers bytes in order.
 """
 from .lib.guards import conditions
 from .lib.paths import strip
-from .lib.value import vstr, walk
+from .lib.value import vstr, walk, canon
+from .lib.effects import Effects
+from .lib.discard import result_fates, verdict
+from . import C19_helpers as H
 
 WC = 'libherokubuildpack::command::write_child_process_output'
 MW = 'libherokubuildpack::write::MappedWrite::<W>::'
-FLUSH = MW + 'map_and_write_current_buffer'
+SPAWN = {"crossbeam_utils::thread::Scope::<'env>::spawn", 'std::thread::scope::Scope::spawn', "std::thread::Scope::<'scope, 'env>::spawn"}
+JOIN = {"crossbeam_utils::thread::ScopedJoinHandle::<'_, T>::join", "std::thread::ScopedJoinHandle::<'scope, T>::join"}
+SCOPE = {'crossbeam_utils::thread::scope', 'std::thread::scope', 'std::thread::scoped::scope'}
+WAITS = ('std::process::Child::wait', 'std::process::Child::wait_with_output', 'std::process::Child::try_wait')
+TAKES = ('std::option::Option::<T>::take', 'std::mem::take', 'std::mem::replace')
 
 
-def reaches(prog, call, target_names):
-    """can executing `call` (incl. closures / fn items handed to it) reach a call of one of target_names"""
-    roots = list(prog.callee_fns(call)) + list(prog.fn_item_args(call))
-    if call.name in target_names:
-        return True
-    for f in prog.reach(roots).values():
-        for c in f.calls:
-            if c.name in target_names:
-                return True
-    return False
+def has_field(v, name, base=None):
+    """v mentions `<base>.name` (base: predicate on the stripped base value)"""
+    return any(x[0] == 'field' and len(x) == 3 and x[2] == name and (base is None or base(strip(x[1]))) for x in walk(v))
 
 
 def run(ctx, rep):
@@ -44,180 +49,286 @@ def run(ctx, rep):
         rep.rule(r, d)
     rep.not_decided = ['scheduling / timing, kernel pipe behaviour', 'chunking independence as a value-level statement', 'io::copy ordering (std)']
     w = lambda f: '%s:%d' % (f.file, f.line)
+    nf = lambda v, keep=(): H.nf(sl, v, keep)
     wc = prog.fn(WC)
     rep.analysed(wc)
-    sc = [g for g in prog.closures_of(wc) if g.parent == WC]
-    if len(sc) != 1:
+    is_child = lambda x: x[0] == 'param' and x[1] == wc.path and x[2] == 0
+
+    # ---- the scoped-thread closure: the closure handed to thread::scope (wherever that call is spelled) ----------------
+    Es = Effects(prog, sl, vocab={n: ('TSCOPE', 0) for n in SCOPE})
+    scopes = [e for e in Es.expand(wc, 'may') if e.kind == 'TSCOPE']
+    sc = None
+    if len(scopes) == 1:
+        clv = strip(scopes[0].args[0]) if scopes[0].args else ('unknown',)
+        sc = prog.fns.get(clv[1]) if clv[0] == 'closure' else None
+    if sc is None:
         rep.unproven('R1', 'scope-closure', w(wc), 'scoped-thread closure not found')
         return
-    sc = sc[0]
+    scope_call = scopes[0].call
     rep.analysed(sc)
-    SPAWN = {"crossbeam_utils::thread::Scope::<'env>::spawn", 'std::thread::scope::Scope::spawn', "std::thread::Scope::<'scope, 'env>::spawn"}
-    JOIN = {"crossbeam_utils::thread::ScopedJoinHandle::<'_, T>::join", "std::thread::ScopedJoinHandle::<'scope, T>::join"}
-    spawners = [c for c in sc.calls if not c.indirect and reaches(prog, c, SPAWN)]
-    joiners = [c for c in sc.calls if not c.indirect and reaches(prog, c, JOIN)]
-    rep.check(len(spawners) == 2 and len(joiners) == 2, 'R1', 'sites', w(sc), '2 spawning and 2 joining call sites', '%d spawning / %d joining call sites' % (len(spawners), len(joiners)))
-    for i, j in enumerate(joiners):
-        ok = all(sc.dominates(s.bb, j.bb) and s.bb != j.bb for s in spawners)
-        rep.check(ok, 'R1', 'join#%d' % i, j.where(), 'join happens after both spawns on every path',
+
+    # ---- R1 ------------------------------------------------------------------------------------------------------------
+    voc = {n: ('TSPAWN', 1) for n in SPAWN}
+    voc.update({n: ('TJOIN', 0) for n in JOIN})
+    voc.update({n: ('WAIT', 0) for n in WAITS})
+    voc['std::panic::resume_unwind'] = ('REPANIC', 0)
+    Et = Effects(prog, sl, vocab=voc)
+    teffs = Et.expand(wc, 'may')
+    spawns = [e for e in teffs if e.kind == 'TSPAWN' and H.top_call(e, sc) is not None]
+    joins = [e for e in teffs if e.kind == 'TJOIN' and H.top_call(e, sc) is not None]
+    stray = [e for e in teffs if e.kind in ('TSPAWN', 'TJOIN') and H.top_call(e, sc) is None]
+    rep.check(len(spawns) == 2 and len(joins) == 2 and not stray, 'R1', 'sites', w(sc), '2 spawn and 2 join effects inside the scope closure',
+              '%d spawn / %d join effects inside the scope closure, %d outside' % (len(spawns), len(joins), len(stray)))
+    for i, j in enumerate(joins):
+        jb = H.top_call(j, sc).bb
+        ok = all(sc.dominates(H.top_call(s, sc).bb, jb) and H.top_call(s, sc).bb != jb for s in spawns)
+        rep.check(ok, 'R1', 'join#%d' % i, H.top_call(j, sc).where(), 'join happens after both spawns on every path',
                   'a copier thread is joined before the other stream\'s copier is spawned: a child filling the other pipe deadlocks')
-    # the spawned closures copy their own stream to their own writer
-    streams = {}
-    for s in spawners:
-        src = strip(sl.operand(sc, s.args[0]))
-        fld = next((x[2] for x in walk(src) if x[0] == 'field' and x[2] in ('stdout', 'stderr')), None)
-        for g in prog.fn_item_args(s):
-            for g2 in [g] + prog.closures_of(g):
-                for c in g2.calls:
-                    if c.is_('std::io::copy'):
-                        a = [strip(sl.operand(g2, x)) for x in c.args]
-                        streams[fld] = (vstr(a[0]), vstr(a[1]), g2)
-    rep.extra['copiers'] = {k: list(v[:2]) for k, v in streams.items() if k}
-    ok = set(streams) == {'stdout', 'stderr'}
-    if ok:
-        # writer of stdout copier = 2nd parameter of write_child_process_output, stderr = 3rd
+
+    # ---- R3: what every spawned thread computes (closure value with its captures in the terms of wc) ---------------------
+    Ec = Effects(prog, sl, vocab={'std::io::copy': ('COPY', 0)})
+    copies = [e for e in Ec.expand(wc, 'may') if e.kind == 'COPY']
+    streams = {}      # fld -> (reader, writer, canonical closure value, thread result)
+    for s in spawns:
+        clv = nf(s.args[1]) if len(s.args) > 1 else ('unknown',)
+        res = sl.apply_closure(strip(clv), (('unknown', 'scope'),)) if strip(clv)[0] in ('closure', 'fnitem') else None
+        res = nf(res) if res is not None else ('unknown', 'thread body')
+        cp = [x for x in walk(res) if x[0] == 'call' and x[1] == 'std::io::copy' and len(x[2]) == 2]
+        fld = None
+        if len(cp) == 1:
+            fld = next((f for f in ('stdout', 'stderr') if has_field(cp[0][2][0], f, is_child)), None)
+        if fld is not None and fld not in streams:
+            streams[fld] = (cp[0][2][0], cp[0][2][1], canon(strip(clv)), res, s)
+        else:
+            streams[None] = None
+    rep.extra['copiers'] = {k: [vstr(v[0]), vstr(v[1])] for k, v in streams.items() if k}
+    if set(streams) == {'stdout', 'stderr'} and len(copies) == 2:
         for fld, idx in (('stdout', 1), ('stderr', 2)):
-            g2 = streams[fld][2]
-            c = [c for c in g2.calls if c.is_('std::io::copy')][0]
-            wv = sl.operand(g2, c.args[1])
-            rv = sl.operand(g2, c.args[0])
-            good_w = any(x[0] == 'param' and x[1] == WC and x[2] == idx for x in walk(wv))
-            good_r = any(x[0] == 'field' and x[2] == fld for x in walk(rv)) or any(x[0] == 'param' and x[3] == fld for x in walk(rv))
-            rep.check(good_w and good_r, 'R3', 'copier/' + fld, c.where(), 'io::copy(child.%s, %s writer)' % (fld, fld), 'the %s copier copies %s into %s' % (fld, vstr(rv)[:60], vstr(wv)[:60]))
-            rv0 = strip(sl.local(g2, 0))
-            rep.check(rv0[0] == 'call' and rv0[1] == 'std::io::copy', 'R3', 'copier-result/' + fld, c.where(), 'the copy result is the thread result', 'the copy result is not returned from the thread')
+            rv, wv, _, res, s = streams[fld]
+            good_w = any(x[0] == 'param' and x[1] == wc.path and x[2] == idx for x in walk(wv)) and \
+                not any(x[0] == 'param' and x[1] == wc.path and x[2] == 3 - idx for x in walk(wv))
+            rep.check(good_w, 'R3', 'copier/' + fld, s.where(), 'io::copy(child.%s, %s writer)' % (fld, fld), 'the %s copier copies %s into %s' % (fld, vstr(rv)[:60], vstr(wv)[:60]))
+            r0 = strip(res)
+            rep.check(r0[0] == 'call' and r0[1] == 'std::io::copy', 'R3', 'copier-result/' + fld, s.where(), 'the copy result is the thread result', 'the copy result is not returned from the thread')
     else:
-        rep.violated('R3', 'copiers', w(sc), 'copier threads for %s (expected stdout and stderr)' % sorted(k for k in streams if k))
-    rv = strip(sl.local(sc, 0))
-    ok = rv[0] == 'call' and rv[1].endswith('Result::<T, E>::map') and strip(rv[2][0])[0] == 'call' and strip(rv[2][0])[1].endswith('Result::<T, E>::and')
-    if ok:
-        a, b = strip(rv[2][0])[2]
-        ok = all(strip(x)[0] == 'call' and strip(x)[1].endswith('map_or_else') for x in (a, b))
-    rep.check(ok, 'R3', 'combine', w(sc), 'stdout_result.and(stderr_result).map(|_| child): an error of either copier is returned', 'copier results are not combined with and(): ' + vstr(rv)[:120])
-    up = prog.fn('libherokubuildpack::command::unwind_panic')
-    rep.analysed(up)
-    ru = [c for c in up.calls if c.is_('std::panic::resume_unwind')]
-    ok = len(ru) == 1 and strip(sl.operand(up, ru[0].args[0]))[0] == 'unwrap_err'
-    rep.check(ok, 'R3', 'panic-reraised', w(up), 'a panicked copier thread re-raises in the caller', 'copier panics are swallowed')
+        rep.violated('R3', 'copiers', w(sc), 'copier threads for %s, %d io::copy effects (expected one each for stdout and stderr)' % (sorted(k for k in streams if k), len(copies)))
+
+    def joined_streams(v):
+        """streams whose joined copy result value v is: every alternative of v is either the literal Ok(..) standing for a
+        pipe that does not exist, or payload(join(<handle>)) — the io::Result the copier thread returned — where the handle
+        is what Scope::spawn returned for that stream's closure"""
+        out = set()
+        n = nf(v)
+        for a in (n[1] if n[0] == 'phi' else (n,)):
+            if a[0] == 'agg' and a[1] == 'std::result::Result' and a[2] == 'Ok':
+                continue
+            if not (a[0] == 'unwrap' and a[1][0] == 'call' and a[1][1] in JOIN and a[1][2]):
+                return set()
+            h = strip(nf(a[1][2][0]))
+            if not (h[0] == 'call' and h[1] in SPAWN and len(h[2]) > 1):
+                return set()
+            cv = canon(strip(nf(h[2][1])))
+            out.update(f for f, sv in streams.items() if f and sv[2] == cv)
+        return out
+
+    # success of the scope closure depends on both joined copy results; its payload is the child; wc returns the scope's result
+    alts = H.fn_alts(sl, sl, sc)
+    ok = bool(alts)
+    detail = []
+    for payload, deps in alts:
+        got = set()
+        for dv in deps:
+            got |= joined_streams(dv)
+        detail.append('Ok(%s) needs %s' % (vstr(payload)[:30], sorted(got)))
+        ok = ok and got >= {'stdout', 'stderr'} and any(is_child(strip(x)) for x in walk(payload))
+    ok = ok and any(x[0] == 'call' and x[1] in SCOPE for x in walk(nf(sl.local(wc, 0))))
+    rep.check(ok, 'R3', 'combine', w(sc), 'Ok(child) only if the joined stdout and stderr copy results are both Ok: an error of either copier is returned',
+              'copier results are not combined with and(): success does not depend on both joined copy results (%s)' % '; '.join(detail)[:160])
+
+    # the panic payload of every joined thread, and of the scope itself, is resumed
+    repanics = [strip(e.path) for e in teffs if e.kind == 'REPANIC' and e.path is not None]
+    repanics = [strip(p[1]) for p in repanics if p[0] == 'unwrap_err']
+
+    def reraised(call, args):
+        if not (call.dty or '').startswith('std::result::Result<'):
+            return True     # std::thread::scope propagates panics itself
+        return any(p[0] == 'call' and len(p) == 4 and p[3] == (call.fn.path, call.bb) and (args is None or canon(p[2]) == canon(tuple(args))) for p in repanics)
+    ok = len(joins) > 0 and all(reraised(j.call, j.args) for j in joins) and reraised(scope_call, None)
+    rep.check(ok, 'R3', 'panic-reraised', w(wc), 'a panicked copier thread re-raises in the caller', 'copier panics are swallowed')
+
     sp = prog.find_one(r'^<std::process::Command as libherokubuildpack::command::CommandExt>::spawn_and_write_streams$')
     rep.analysed(sp)
-    v = strip(sl.local(sp, 0))
-    piped = sorted(c.name.split('::')[-1] for c in sp.calls if c.name in ('std::process::Command::stdout', 'std::process::Command::stderr')
-                   and strip(sl.operand(sp, c.args[1]))[0] == 'call' and strip(sl.operand(sp, c.args[1]))[1] == 'std::process::Stdio::piped')
+    piped = sorted(c.name.split('::')[-1] for g in [sp] + prog.closures_of(sp) for c in g.calls if c.name in ('std::process::Command::stdout', 'std::process::Command::stderr')
+                   and strip(sl.operand(g, c.args[1]))[0] == 'call' and strip(sl.operand(g, c.args[1]))[1] == 'std::process::Stdio::piped')
     rep.check(piped == ['stderr', 'stdout'], 'R3', 'piped', w(sp), 'both streams are piped', 'piped streams: %s' % piped)
     # the returned Output carries the buffers that were tee'd with the caller's writers, stream by stream
     ow = prog.find_one(r'^<std::process::Command as libherokubuildpack::command::CommandExt>::output_and_write_streams$')
     rep.analysed(ow)
-    spc = [c for c in ow.calls if c.name and c.name.endswith('spawn_and_write_streams')]
+    spc = [c for g in [ow] + prog.closures_of(ow) for c in g.calls if c.name and c.name.endswith('spawn_and_write_streams')]
     ok = len(spc) == 1
     if ok:
-        tees = [strip(sl.operand(ow, a)) for a in spc[0].args[1:3]]
-        ok = all(t[0] == 'call' and t[1] == 'libherokubuildpack::write::tee' for t in tees)
+        tees = [strip(sl.operand(spc[0].fn, a)) for a in spc[0].args[1:3]]
+        ok = len(tees) == 2 and all(t[0] == 'call' and t[1] == 'libherokubuildpack::write::tee' for t in tees)
         if ok:
             bufs = [strip(t[2][0]) for t in tees]
             users = [strip(t[2][1]) for t in tees]
             ok = [u[2] for u in users if u[0] == 'param'] == [1, 2] and bufs[0] != bufs[1]
-            outs = [g for g in prog.closures_of(ow) if any(st[0] == '=' and st[2]['r'] == 'agg' and (st[2].get('adt') or '').endswith('process::Output') for b in g.blocks for st in b['s'])]
-            if ok and len(outs) == 1:
-                ov = strip(sl.local(outs[0], 0))
-                fl = dict(ov[3]) if ov[0] == 'agg' else {}
+            # success payload of the function: the same aggregate for `.map(|status| Output {..})` and `Ok(Output {..})`
+            ov = strip(sl.mk_unwrap(sl.local(ow, 0), 1))
+            if ok and ov[0] == 'agg' and (ov[1] or '').endswith('process::Output'):
+                fl = dict(ov[3])
                 ok = strip(fl.get('stdout', ('unknown',))) == bufs[0] and strip(fl.get('stderr', ('unknown',))) == bufs[1]
             else:
                 ok = False
     rep.check(ok, 'R3', 'output-buffers', w(ow), 'Output.stdout / .stderr are the buffers tee\'d with the stdout / stderr writers', 'the returned Output does not carry the per-stream tee buffers')
+
     # ---- R2 --------------------------------------------------------------------------------------------
     waits = [(f, c) for f in prog.fns.values() if f.crate == 'libherokubuildpack' and f.path.startswith(('libherokubuildpack::command', '<std::process::Command as libherokubuildpack::command'))
-             for c in f.calls if c.is_('std::process::Child::wait', 'std::process::Child::wait_with_output', 'std::process::Child::try_wait')]
+             for c in f.calls if c.is_(*WAITS)]
     rep.check(len(waits) == 1, 'R2', 'wait-sites', w(wc), 'one Child::wait call site in the command module', '%d wait call sites' % len(waits))
     for f, c in waits:
-        parent = prog.fns.get(f.parent)
-        ok = False
-        if parent is not None:
-            at = [x for x in parent.calls if x.name and x.name.endswith('::and_then') and any(y[0] == 'closure' and y[1] == f.path for y in walk(sl.operand(parent, x.args[1])))]
-            if len(at) == 1:
-                recv = strip(sl.operand(parent, at[0].args[0]))
-                ok = recv[0] == 'call' and recv[1].endswith('spawn_and_write_streams') and strip(sl.operand(f, c.args[0]))[0] == 'param'
+        top = f
+        while top.kind == 'Closure' and prog.fns.get(top.parent) is not None:
+            top = prog.fns[top.parent]
+        rep.analysed(top)
+        we = [e for e in Et.expand(top, 'may') if e.kind == 'WAIT' and e.call is c]
+        # the waited-for child is the success payload of (a function returning) the stream copier's result
+        ok = bool(we)
+        for e in we:
+            recv = strip(nf(e.args[0], keep=(WC,))) if e.args else ('unknown',)
+            ok = ok and recv[0] == 'call' and recv[1] == WC
         rep.check(ok, 'R2', 'wait-after-copy', c.where(), 'wait() runs on the child returned by the stream copier (after both streams hit EOF)',
                   'Child::wait is not sequenced after the stream copy')
-    no_wait_inside = not any(c.is_('std::process::Child::wait') for g in [wc] + prog.closures_of(wc) for c in g.calls)
+    no_wait_inside = not any(e.kind == 'WAIT' for e in teffs)
     rep.check(no_wait_inside, 'R2', 'no-wait-in-copier', w(wc), 'the copier itself never waits for the child', 'the stream copier waits for the child before the streams are drained')
+
     # ---- R4 --------------------------------------------------------------------------------------------
+    Ew = Effects(prog, sl, vocab={'std::io::Write::write_all': ('WRITE_ALL', 0), 'std::io::Write::write': ('WRITE_SOME', 0), 'std::io::Write::flush': ('FLUSH', 0)})
     tw = prog.find_one(r'^<libherokubuildpack::write::TeeWrite<A, B> as std::io::Write>::write$')
     rep.analysed(tw)
-    wa = [c for c in tw.calls if c.decl == 'std::io::Write::write_all']
-    targets = sorted(strip(sl.operand(tw, c.args[0]))[2] for c in wa if strip(sl.operand(tw, c.args[0]))[0] == 'field')
-    whole = all(strip(sl.operand(tw, c.args[1]))[0] == 'param' and strip(sl.operand(tw, c.args[1]))[2] == 1 for c in wa)
-    from .lib.discard import result_fates, verdict
-    prop = all(verdict(result_fates(prog, tw, c)) == 'ok' for c in wa)
-    rep.check(targets == ['inner_a', 'inner_b'] and whole and prop, 'R4', 'write_all-both', w(tw), 'write_all(buf) on both targets, errors propagated',
+    self_of = lambda fn: (lambda x: x[0] == 'param' and x[1] == fn.path and x[2] == 0)
+
+    def target_of(v, fn):
+        v = strip(v)
+        return v[2] if v[0] == 'field' and self_of(fn)(strip(v[1])) else None
+    weffs = [e for e in Ew.expand(tw, 'may') if e.kind in ('WRITE_ALL', 'WRITE_SOME')]
+    wa = [e for e in weffs if e.kind == 'WRITE_ALL']
+    targets = sorted(t for t in (target_of(e.args[0], tw) for e in wa) if t)
+    whole = all(H.is_param(e.args[1], tw, 1) for e in wa)
+    prop = all(verdict(result_fates(prog, e.call.fn, e.call)) == 'ok' for e in wa) and \
+        all(verdict(result_fates(prog, l.call.fn, l.call)) == 'ok' for e in wa for l in e.chain if (l.call.dty or '').startswith('std::result::Result<'))
+    partial = [e for e in weffs if e.kind == 'WRITE_SOME' and target_of(e.args[0], tw)]
+    rep.check(targets == ['inner_a', 'inner_b'] and whole and prop and not partial, 'R4', 'write_all-both', w(tw), 'write_all(buf) on both targets, errors propagated',
               'tee write: targets=%s whole_slice=%s propagated=%s (write() instead of write_all() may write a prefix only)' % (targets, whole, prop))
-    oks = [strip(sl._rvalue(tw, d[3], set(), 0, None)) for d in tw.whole_defs(0) if d[0] == 'stmt' and d[3]['r'] == 'agg' and d[3].get('variant') == 'Ok']
-    ok = len(oks) == 1 and strip(dict(oks[0][3])['0'])[0] == 'call' and strip(dict(oks[0][3])['0'])[1].endswith('::len') and strip(strip(dict(oks[0][3])['0'])[2][0])[2] == 1
+    talts = H.fn_alts(sl, sl, tw)
+
+    def is_len_of_buf(p, fn):
+        p = strip(p)
+        return p[0] == 'call' and p[1].endswith('::len') and len(p[2]) == 1 and H.is_param(p[2][0], fn, 1)
+    ok = bool(talts) and all(is_len_of_buf(p, tw) for p, _ in talts)
     rep.check(ok, 'R4', 'returns-len', w(tw), 'returns Ok(buf.len())', 'tee write does not report the whole slice as written')
-    sites = [d[1] for d in tw.whole_defs(0) if d[0] == 'stmt' and d[3]['r'] == 'agg' and d[3].get('variant') == 'Ok']
-    rep.check(all(tw.dominates(c.bb, s) for c in wa for s in sites) and len(wa) == 2, 'R4', 'both-before-ok', w(tw), 'both writes precede the success return', 'a target can be skipped on a success path')
+
+    def needs_both(deps):
+        got = set()
+        for dv in deps:
+            dv = strip(dv)
+            if dv[0] == 'call' and dv[1] == 'std::io::Write::write_all' and len(dv[2]) == 2 and H.is_param(dv[2][1], tw, 1):
+                got.add(target_of(dv[2][0], tw))
+        return got >= {'inner_a', 'inner_b'}
+    rep.check(bool(talts) and all(needs_both(ds) for _, ds in talts) and len(wa) == 2, 'R4', 'both-before-ok', w(tw), 'both writes precede the success return', 'a target can be skipped on a success path')
     tf = prog.find_one(r'^<libherokubuildpack::write::TeeWrite<A, B> as std::io::Write>::flush$')
-    fl = sorted(strip(sl.operand(tf, c.args[0]))[2] for c in tf.calls if c.decl == 'std::io::Write::flush' and strip(sl.operand(tf, c.args[0]))[0] == 'field')
+    rep.analysed(tf)
+    fl = sorted(t for t in (target_of(e.args[0], tf) for e in Ew.expand(tf, 'may') if e.kind == 'FLUSH') if t)
     rep.check(fl == ['inner_a', 'inner_b'], 'R4', 'flush-both', w(tf), 'flush flushes both targets', 'tee flush targets: %s' % fl)
+
     # ---- R5 --------------------------------------------------------------------------------------------
     mw = prog.find_one(r'^<libherokubuildpack::write::MappedWrite<W> as std::io::Write>::write$')
     rep.analysed(mw)
-    push = [c for c in mw.calls if c.name == 'std::vec::Vec::<T, A>::push']
-    ok = len(push) == 1 and mw.in_loop(push[0].bb)
+    dr = prog.fns.get('<libherokubuildpack::write::MappedWrite<W> as std::ops::Drop>::drop')
+    un = prog.fn(MW + 'unwrap')
+    rep.analysed(un)
+    is_field = lambda v, fn, name: strip(v)[0] == 'field' and strip(v)[2] == name and self_of(fn)(strip(strip(v)[1]))
+
+    def inner_writes(fn):
+        """effects that hand bytes to the inner writer, reached from fn"""
+        return [e for e in Ew.expand(fn, 'may') if e.kind in ('WRITE_ALL', 'WRITE_SOME') and e.args and has_field(e.args[0], 'inner', self_of(fn))]
+
+    def mapped_flush(e, fn):
+        """inner.write_all(mapping_fn(take(buffer)))"""
+        if e.kind != 'WRITE_ALL' or len(e.args) < 2:
+            return False
+        dv = strip(e.args[1])
+        return dv[0] == 'call' and dv[1] == 'std::ops::Fn::call' and has_field(dv[2][0], 'mapping_fn', self_of(fn)) and \
+            any(x[0] == 'call' and x[1] == 'std::mem::take' and x[2] and is_field(x[2][0], fn, 'buffer') for x in walk(dv))
+    iw = {f.path: inner_writes(f) for f in (mw, un) + ((dr,) if dr is not None else ())}
+    flushes = {p: [e for e in es if mapped_flush(e, prog.fns[p])] for p, es in iw.items()}
+    for es in iw.values():
+        for e in es:
+            rep.analysed(e.call.fn)
+
+    is_marker = lambda v: is_field(v, mw, 'marker_byte')
+
+    def nonempty_test(v, fn):
+        """v is `buffer.is_empty()` on fn's own buffer field"""
+        v = strip(v)
+        return v[0] == 'call' and v[1].endswith('::is_empty') and len(v[2]) == 1 and is_field(v[2][0], fn, 'buffer')
+    parts = H.partitions(sl, Ew, mw, 1, is_marker)
+    appends = [c for c in mw.calls if not c.indirect and c.args and is_field(sl.operand(mw, c.args[0]), mw, 'buffer') and
+               c.name.startswith('std::vec::Vec::<T, A>::') and c.name.rsplit('::', 1)[-1] in ('push', 'extend_from_slice', 'extend', 'append', 'insert', 'extend_from_within')]
+    P = parts[0] if len(parts) == 1 else None
+    ok = P is not None and len(appends) == 1 and appends[0].name in P.APPEND[P.kind] and appends[0].bb in P.loop.body and mw.in_loop(appends[0].bb)
     if ok:
-        recv = strip(sl.operand(mw, push[0].args[0]))
-        val = strip(sl.operand(mw, push[0].args[1]))
-        ok = recv[0] == 'field' and recv[2] == 'buffer' and any(x[0] == 'call' and x[1] == 'std::iter::Iterator::next' and strip(x[2][0])[0] == 'param' and strip(x[2][0])[2] == 1 for x in walk(val))
+        ok = P.is_elem(sl.operand(mw, appends[0].args[1]))
         # unconditional within the loop body
-        ok = ok and not [cd for cd in conditions(mw, push[0].bb, sl) if cd.kind == 'bool']
+        cds = conditions(mw, appends[0].bb, sl)
+        ok = ok and not [cd for cd in cds if cd.kind == 'bool'] and all(P.is_elem(cd.subject) for cd in cds if cd.kind == 'variant' and cd.subject is not None)
     rep.check(ok, 'R5', 'push-every-byte', w(mw), 'every input byte is appended to the buffer field', 'not every input byte reaches the buffer')
-    fc = [c for c in mw.calls if c.name == FLUSH]
-    ok = len(fc) == 1 and mw.in_loop(fc[0].bb)
+    fcs = {}
+    for e in flushes[mw.path]:
+        fcs[H.top_call(e).bb] = e
+    ok = P is not None and len(fcs) == 1
     if ok:
-        cds = [cd for cd in conditions(mw, fc[0].bb, sl) if cd.kind == 'bool']
-        ok = len(cds) == 1 and cds[0].outcome is True and cds[0].value[0] == 'bin' and cds[0].value[1] == 'Eq'
-        if ok:
-            a, b = strip(cds[0].value[2]), strip(cds[0].value[3])
-            ok = {('field' if x[0] == 'field' and x[2] == 'marker_byte' else 'byte' if any(y[0] == 'call' and y[1] == 'std::iter::Iterator::next' for y in walk(x)) else '?') for x in (a, b)} == {'field', 'byte'}
-        ok = ok and mw.dominates(push[0].bb, fc[0].bb) if push else False
-        ok = ok and verdict(result_fates(prog, mw, fc[0])) == 'ok'
+        fe = list(fcs.values())[0]
+        fc = H.top_call(fe)
+        ok = fc.bb in P.loop.body and mw.in_loop(fc.bb)
+        cds = [cd for cd in conditions(mw, fc.bb, sl) if cd.kind == 'bool']
+        test = [cd for cd in cds if any(oc is True and P.ends_with_marker(v, is_marker) for v, oc in cd.views())]
+        # besides the marker test only "the buffer is not empty" may guard the flush (always true after the append)
+        rest = [cd for cd in cds if cd not in test and not any(oc is False and nonempty_test(v, mw) for v, oc in cd.views())]
+        ok = ok and len(test) == 1 and not rest
+        ok = ok and len(appends) == 1 and mw.dominates(appends[0].bb, fc.bb) and appends[0].bb != fc.bb
+        ok = ok and all(verdict(result_fates(prog, c.fn, c)) == 'ok' for c in [l.call for l in fe.chain] + [fe.call])
     rep.check(ok, 'R5', 'flush-on-marker', w(mw), 'flush exactly when the pushed byte == marker_byte (after the push), error propagated', 'segment flush condition is not `byte == marker`')
-    oks = [strip(sl._rvalue(mw, d[3], set(), 0, None)) for d in mw.whole_defs(0) if d[0] == 'stmt' and d[3]['r'] == 'agg' and d[3].get('variant') == 'Ok']
-    ok = len(oks) == 1 and strip(dict(oks[0][3])['0'])[0] == 'call' and strip(dict(oks[0][3])['0'])[1].endswith('::len')
+    malts = H.fn_alts(sl, sl, mw)
+    ok = bool(malts) and all(is_len_of_buf(p, mw) for p, _ in malts)
     rep.check(ok, 'R5', 'returns-len', w(mw), 'returns Ok(buf.len())', 'mapped write does not consume the whole slice')
     adt = prog.adt('libherokubuildpack::write::MappedWrite')
     fields = {x['name']: x['ty'] for x in adt['variants'][0]['fields']}
     rep.check(fields.get('buffer', '').startswith('std::vec::Vec<u8'), 'R5', 'buffer-field', '%s:%s' % (adt['file'], adt['line']), 'pending bytes live in a field (state survives across write calls)', 'no buffer field')
-    dr = prog.fns.get('<libherokubuildpack::write::MappedWrite<W> as std::ops::Drop>::drop')
-    rep.check(dr is not None and any(c.name == FLUSH for c in dr.calls), 'R5', 'drop-flushes', w(dr) if dr else '-', 'Drop flushes the remainder', 'the remainder is lost when the writer is dropped')
-    un = prog.fn(MW + 'unwrap')
-    rep.analysed(un)
-    f1 = [c for c in un.calls if c.name == FLUSH]
-    tk = [c for c in un.calls if c.name == 'std::option::Option::<T>::take']
-    ok = len(f1) == 1 and len(tk) == 1 and tk[0].bb in un.reachable(f1[0].bb) and f1[0].bb not in un.reachable(tk[0].bb)
+    rep.check(dr is not None and len(flushes[dr.path]) > 0, 'R5', 'drop-flushes', w(dr) if dr else '-', 'Drop flushes the remainder', 'the remainder is lost when the writer is dropped')
+    f1 = sorted({H.top_call(e).bb for e in flushes[un.path]})
+    tk = [c for c in un.calls if c.is_(*TAKES) and c.args and is_field(sl.operand(un, c.args[0]), un, 'inner')]
+    ok = len(f1) == 1 and len(tk) == 1 and tk[0].bb in un.reachable(f1[0]) and f1[0] not in un.reachable(tk[0].bb)
     rep.check(ok, 'R5', 'unwrap', w(un), 'unwrap flushes the remainder, then takes the inner writer (the later Drop finds nothing to write to)', 'unwrap does not flush-then-take')
-    fl = prog.fn(FLUSH)
-    rep.analysed(fl)
-    wa = [c for c in fl.calls if c.decl == 'std::io::Write::write_all']
-    ok = len(wa) == 1
+    every = [e for es in iw.values() for e in es]
+    shaped = [e for es in flushes.values() for e in es]
+    site = lambda e: (e.call.fn.path, e.call.bb)
+    # every entry point reaches exactly one write to the inner writer, and that write has the mapped shape
+    ok = len(every) == len(shaped) and all(len(es) <= 1 for es in flushes.values()) and len(flushes[mw.path]) == 1
+    flw = prog.fns[sorted({site(e) for e in shaped})[0][0]] if shaped else mw
+    rep.check(ok, 'R5', 'flush-shape', w(flw), 'flush = inner.write_all(mapping_fn(take(buffer)))', 'flush does not write mapping_fn(take(buffer))')
+    # the remainder flush of Drop and unwrap only runs with a non-empty buffer: a guard at any level of the call chain
     guard = None
-    if ok:
-        dv = strip(sl.operand(fl, wa[0].args[1]))
-        ok = dv[0] == 'call' and dv[1] == 'std::ops::Fn::call' and any(x[0] == 'call' and x[1] == 'std::mem::take' and strip(x[2][0])[2] == 'buffer' for x in walk(dv))
-        for cd in conditions(fl, wa[0].bb, sl):
-            if cd.kind == 'bool' and cd.value[0] == 'call' and cd.value[1].endswith('::is_empty') and strip(cd.value[2][0])[0] == 'field' and strip(cd.value[2][0])[2] == 'buffer' and cd.outcome is False:
-                guard = 'in map_and_write_current_buffer'
-    rep.check(ok, 'R5', 'flush-shape', w(fl), 'flush = inner.write_all(mapping_fn(take(buffer)))', 'flush does not write mapping_fn(take(buffer))')
-    if guard is None and dr is not None:
-        # alternatively every remainder flush site (Drop, unwrap) is guarded
-        sites_ok = True
-        for g, cs in ((dr, [c for c in dr.calls if c.name == FLUSH]), (un, f1)):
-            for c in cs:
-                good = any(cd.kind == 'bool' and cd.value[0] == 'call' and cd.value[1].endswith('::is_empty') and strip(cd.value[2][0])[0] == 'field' and strip(cd.value[2][0])[2] == 'buffer' and cd.outcome is False
-                           for cd in conditions(g, c.bb, sl))
-                sites_ok = sites_ok and good
-        if sites_ok:
-            guard = 'at the Drop / unwrap call sites'
-    rep.check(guard is not None, 'R5', 'nonempty-remainder-guard', w(fl), 'the remainder is only mapped and written when the buffer is non-empty (%s)' % guard,
+    if dr is not None and flushes[dr.path] and flushes[un.path]:
+        where = set()
+        good = True
+        for g in (dr, un):
+            for e in flushes[g.path]:
+                hit = [cd for v, oc, cd in H.guard_views(Ew, e) if oc is False and nonempty_test(v, g)]
+                good = good and bool(hit)
+                where.update(cd.fn.path.split('::')[-1] for cd in hit[:1])
+        if good:
+            guard = 'in ' + ' / '.join(sorted(where))
+    rep.check(guard is not None, 'R5', 'nonempty-remainder-guard', w(flw), 'the remainder is only mapped and written when the buffer is non-empty (%s)' % guard,
               'on drop / unwrap the mapping of an EMPTY remainder is emitted: input "a\\n" through line_mapped(add_prefix("> ")) yields "> a\\n> " — the property '
               'only allows the mapping of the non-empty remainder', {'reproducer': 'line_mapped(out, add_prefix("> ")) <- "a\\n" ; drop  =>  "> a\\n> "'})
